@@ -198,8 +198,9 @@ class C03(SingleRun):
         if Keyed(seed).u("profile", "pause_cancel_items") < 0.15:
             # two requests in a row over a with-items window: pause with items held back, cancel
             # before the workflow has come to rest, a sibling action reporting last
-            p["require_features"] = ["with_items"]
-            p["faults"].update(pause=0.2, cancel=0.0, cancel_while_pausing=0.5, resume_early=0.0, rerun=0.0)
+            p["require_features"] = ["with_items", "fork"]
+            p["faults"].update(pause=0.2, cancel=0.0, cancel_while_pausing=0.5, resume_early=0.0, rerun=0.0,
+                               act_canceling=0.05, p_fail=0.05)
         return p
 
     def nontrivial(self, r):
@@ -293,8 +294,8 @@ class C10(SingleRun):
     def profile(self, seed, tier, as_prop=None):
         p = SingleRun.profile(self, seed, tier, as_prop)
         if Keyed(seed).u("profile", "pause_cancel_items") < 0.12:
-            p["require_features"] = ["with_items"]
-            p["faults"].update(pause=0.2, cancel=0.0, cancel_while_pausing=0.5, resume_early=0.0)
+            p["require_features"] = ["with_items", "fork"]
+            p["faults"].update(pause=0.2, cancel=0.0, cancel_while_pausing=0.5, resume_early=0.0, act_canceling=0.05)
         return p
 
     def nontrivial(self, r):
